@@ -419,6 +419,6 @@ for _pid, (_text, _counters) in ROUND10.items():
 # every check whose quick tier has several shards must have run one of them under `python -O` with the library's loggers switched on
 for _pid, _meta in META.items():
     if _meta["shards"]["quick"] >= 2:
-        _meta["rule"] += " One shard in four runs under python -O, one in four with all loggers of the library at level 1 and a formatting handler, one in four with both (shard 0: plain)."
+        _meta["rule"] += " Shard 0 is the plain interpreter; of the others, by turns: python -O + all loggers of the library at level 1 with a formatting handler + eager task factory; loggers only; python -O + eager task factory; each with a PYTHONHASHSEED of its own."
         for _tier_counters in _meta["deciding"].values():
-            _tier_counters["shards_run:optimized+logging"] = 1
+            _tier_counters["shards_run:optimized+logging+eager"] = 1
